@@ -52,8 +52,15 @@ func EncFloat(v float64) any {
 			}
 		}
 	}
-	return M{"t": "float", "f": strconv.FormatFloat(v, 'g', -1, 64)}
+	m := M{"t": "float", "f": strconv.FormatFloat(v, 'g', -1, 64)}
+	if FloatText != nil {
+		m["txt"] = Cps(FloatText(v)) // a logged primitive: the text the LIBRARY's encoder writes for this double
+	}
+	return m
 }
+
+// FloatText, when set by a harness, is recorded with every double the value model does not spell.
+var FloatText func(float64) string
 
 // EncStr encodes a Go string: code points, or raw bytes if not valid UTF-8.
 func EncStr(s string) any {
